@@ -129,6 +129,9 @@ def tasks(ctx):
            pc.ppu_task("EndMachineCycle", ["xinv", "inv"])]
     ts.append(LemmaTask("lemma:oam-plain-with-lcd-off", oam_plain_lemma, ["(*oam.OAM).Write", "(*oam.OAM).Read", "(*oam.OAM).Corrupt", "(*oam.OAM).TriggerWriteCorruption"]))
     ts.append(LemmaTask("lemma:readback", raw_lemmas, [mc.M + "Read", mc.M + "Write", "register handlers (inlined)"]))
+    # "from power-on": the machine gameboy.New builds satisfies the invariants (worldOK) all of the above are proved under
+    import props.wiring as wr
+    ts.append(LemmaTask("lemma:power-on", lambda c, e, ce: wr.power_on(c, e, ce, wiring=False), ["gameboy.New", "memory.New", "ppu.New", "oam.New", "audio.New", "timer.New"]))
     return filter_tasks(ts)
 
 
